@@ -13,6 +13,7 @@ From FT Require Proofs.EditNodeBasic Proofs.EditBook Proofs.EditUDN Proofs.EditU
 From FT Require Gen.History_gen Proofs.HistoryGen Props.C02.
 From FT Require Proofs.EditWFPaint Proofs.EditWFPaintRollback Proofs.EditSessions Proofs.EditInverse Proofs.EditFrame.
 From FT Require Gen.UserActions_gen Proofs.UserActionsTie.
+From FT Require Proofs.CoreTieBundle.
 Import ListNotations.
 Open Scope Z_scope.
 
@@ -143,6 +144,16 @@ Proof.
   exact FT.Proofs.UserActionsTie.gen_user_update_seg_eq.
 Qed.
 
+(* ---- one level further down: the queries (get_track_neighbors with its in-place sort, has_track_id_at_time,
+        next track / lineage id), the node-id counter, Tracks.undo / redo and the seven basic actions with their
+        inverses (__init__, _apply, the annotator notifications, the track-annotator bookkeeping and relabel
+        walk inlined) of the model equal the code translated on every run from data_model/solution_tracks.py,
+        data_model/tracks.py, annotators/_track_annotator.py and actions/*.py (Gen/Core_gen.v; translator
+        harness/translate_core.py, fail closed).  The statement is Proofs/CoreTieBundle.v: core_tie_statement.
+        Not translated (hand models): the regionprops / edge annotators' update, the bulk compute paths. ---- *)
+Theorem C11_core_is_generated : FT.Proofs.CoreTieBundle.core_tie_statement.
+Proof. exact FT.Proofs.CoreTieBundle.core_tie. Qed.
+
 Example C11_nonvacuous :
   fst (step fx (OAddEdge 1 6 true)) = fx /\ fst (snd (step fx (OAddEdge 1 6 true))) = 10 /\
   fst (step fx (OAddEdge 1 5 true)) = fx /\ fst (snd (step fx (OAddEdge 1 5 true))) = 10 /\
@@ -163,3 +174,4 @@ Print Assumptions C11_edge_calls.
 Print Assumptions C11_history_is_generated.
 Print Assumptions C11_paint.
 Print Assumptions C11_user_actions_are_generated.
+Print Assumptions C11_core_is_generated.
